@@ -404,28 +404,29 @@ def run_behaviour(ctx, beh, rows, sv0, root, real="user", sigprefix="replay", sa
         exp = expect_state(last_d, None if (warm and cfg["iface"] == "exp") else cur_sv)
         prev_exp = exp
         got = drv.state()
-        # (1) non-finite proposals are never accepted, whatever the uniform (first: an accepted NaN component changes what follows)
+        # (1) per (component) proposal, in order: the point the code evaluated, then - for a non-finite proposal - that it
+        #     was not accepted whatever the uniform (an accepted NaN component changes what the later components see)
+        seen = T.evals[n0:] if T is not None else None
         for i, (p, d) in enumerate(pairs):
+            y = np.array(p["y"], dtype=float)
+            if seen is not None and not any(close(y, q) for q in seen):
+                clause = "proposal"
+                if k == "PCN" and len(p.get("yraw", [])) and any(close(vec(p["yraw"]), q) for q in seen):
+                    clause = "proposal/ProposalUsesRawPriorDraw"
+                ctx.mismatch("%s/%s" % (base, clause), dict(case, pos=pos),
+                             "the target was not evaluated at the proposal of the modelled mechanism (noise xi=%s)" % (p["xi"],),
+                             expected=y, observed=seen)
+                return done
             if d["cls"] == "Any":
-                moved = not close(got["x"], pre["x"]) if k != "CW" else bool(acc.size > i and acc[i] > 0)
-                if moved or (k != "CW" and acc.size and acc[0] > 0):
+                if k == "CW":
+                    bad = bool(acc.size > i and acc[i] > 0)
+                else:
+                    bad = (not close(got["x"], pre["x"])) or bool(acc.size and acc[0] > 0)
+                if bad:
                     kindnf = "NaN" if math.isnan(ext(p["tv"])) else "NegInf"
                     ctx.mismatch("%s/nonfinite_accept/%s" % (base, kindnf), dict(case, pos=pos),
                                  "a proposal whose log-density is %s was accepted (uniform %g)" % (kindnf, us[i]),
                                  expected={"acc": 0, "x": pre["x"]}, observed={"acc": acc, "x": got["x"]})
-                    return done
-        # (2) the proposal the code evaluated
-        if T is not None:
-            seen = T.evals[n0:]
-            for p, d in pairs:
-                y = np.array(p["y"], dtype=float)
-                if not any(close(y, q) for q in seen):
-                    clause = "proposal"
-                    if k == "PCN" and len(p.get("yraw", [])) and any(close(vec(p["yraw"]), q) for q in seen):
-                        clause = "proposal/ProposalUsesRawPriorDraw"
-                    ctx.mismatch("%s/%s" % (base, clause), dict(case, pos=pos),
-                                 "the target was not evaluated at the proposal of the modelled mechanism (noise xi=%s)" % (p["xi"],),
-                                 expected=y, observed=seen)
                     return done
         # (3) acceptance flag(s): the decision for a uniform just below / above exp(r)
         eacc = np.array([d["acc"] for _, d in pairs], dtype=float)
